@@ -46,7 +46,25 @@ Prog(j, reader, recompute, deep, nest) ==
     [] nest = "inner" -> <<Make(30, "o", Num(0)), Make(31, "i", Num(0)), Make(32, "f", Num(0)),
                            Loop(33, Bin("lt", Var("o"), Num(2)), <<Set(34, "o", Bin("add", Var("o"), Num(1)))>> \o Core(j, reader, recompute, deep, "set"))>>
     [] nest = "function" -> <<Def(30, "run", <<>>, Core(j, reader, recompute, deep, "make") \o <<Ret(31, Var("i"))>>), Shout(32, G("run", <<>>))>>
-Programs == {Prog(j, r, rc, d, n) : j \in {"next", "comot"}, r \in Readers, rc \in BOOLEAN, d \in BOOLEAN, n \in {"single", "inner", "function"}}
+\* SCOPEDJOIN: a variable scoped to a block / loop body / if body / function body is declared, RE-ASSIGNED under an inner
+\* branch, and read after the branches join - in the stretch where its scope ends (the scope's end kills it: a read before
+\* the kill in the same block keeps it alive in the predecessors).
+Scoped(cont, branch, val, tail) ==
+  LET v == IF val = "const" THEN Num(9) ELSE Bin("add", Var("i"), Num(20))
+      set == Set(53, "w", v)
+      br == CASE branch = "if" -> <<If(52, Bin("na", Bin("mod", Var("i"), Num(2)), Num(0)), <<set>>)>>
+              [] branch = "ifelse" -> <<[k |-> "if", id |-> 52, c |-> Bin("na", Bin("mod", Var("i"), Num(2)), Num(0)), t |-> <<set>>, f |-> <<<<Set(54, "w", Num(3))>>>>]>>
+              [] branch = "loop" -> <<Make(55, "q", Num(0)), Loop(52, Bin("lt", Var("q"), Num(1)), <<Set(56, "q", Num(1)), set>>)>>
+      rd == IF tail = "direct" THEN <<Shout(57, Var("w"))>> ELSE <<Shout(58, Var("i")), Shout(57, Var("w"))>>
+      body == <<Make(51, "w", Num(1))>> \o br \o rd
+  IN CASE cont = "block" -> <<Make(40, "i", Num(2)), [k |-> "block", id |-> 41, b |-> body], Shout(42, Var("i"))>>
+       [] cont = "loop" -> <<Make(40, "i", Num(0)), Loop(41, Bin("lt", Var("i"), Num(4)), body \o <<Set(43, "i", Bin("add", Var("i"), Num(1)))>>), Shout(42, Var("i"))>>
+       [] cont = "if" -> <<Make(40, "i", Num(2)), If(41, Bin("lt", Num(0), Num(1)), body), Shout(42, Var("i"))>>
+       [] cont = "function" -> <<Def(41, "run", <<"i">>, body \o <<Ret(44, Var("i"))>>), Shout(42, G("run", <<Num(2)>>)), Shout(45, G("run", <<Num(3)>>))>>
+       [] cont = "loop-next" -> <<Make(40, "i", Num(0)), Loop(41, Bin("lt", Var("i"), Num(4)),
+                                   <<Set(43, "i", Bin("add", Var("i"), Num(1)))>> \o body \o <<If(46, Bin("na", Var("i"), Num(2)), <<[k |-> "cont", id |-> 47]>>), Shout(48, Var("i"))>>), Shout(42, Var("i"))>>
+Programs == {Scoped(c, b, v, t) : c \in {"block", "loop", "if", "function", "loop-next"}, b \in {"if", "ifelse", "loop"}, v \in {"const", "computed"}, t \in {"direct", "later"}} \cup
+            {Prog(j, r, rc, d, n) : j \in {"next", "comot"}, r \in Readers, rc \in BOOLEAN, d \in BOOLEAN, n \in {"single", "inner", "function"}}
 VARIABLES prog, m, fuel
 vars == <<prog, m, fuel>>
 Init == \E p \in Programs : prog = S!Resolve(p) /\ m = Init0(prog, NoSkip) /\ fuel = 3000
